@@ -65,6 +65,11 @@ FAMILIES = {
     "SQ6": dict(BASE, Tenants=["t1"], Providers=["p1"], Auditors=[], DSeqs=[1, 6], GSeqs=[1], OSeqs=[1],
                 GroupChoices="GroupChoicesS", DepositChoices=[1, 2], PriceChoices=[0, 1, 3], AmountChoices=[1],
                 BidMinDeposit=2, BidDepositChoices=[1, 2], Versions=[1], Gaps=[], InitCoins=6, MaxHeight=1, Variants=True),
+    # the tenant's and the provider's addresses are written in upper-case bech32 in every message (same accounts): the
+    # records are keyed by that spelling, and everything that decodes an id back from an escrow account must find them
+    "UP": dict(BASE, Tenants=["T1"], Providers=["P1"], Auditors=[], DSeqs=[1], GSeqs=[1], OSeqs=[1, 2],
+               GroupChoices="GroupChoicesS", DepositChoices=[2], PriceChoices=[1], AmountChoices=[1],
+               Versions=[1], Gaps=[1, 2], InitCoins=3, MaxHeight=4, UpperParties=["T1", "P1"]),
     "SB": dict(BASE, Tenants=["t1"], Providers=["t1"], Auditors=[], DSeqs=[1], GSeqs=[1], OSeqs=[1],
                GroupChoices="GroupChoicesS", DepositChoices=[2], PriceChoices=[1], AmountChoices=[],
                Versions=[1], Gaps=[], InitCoins=4, MaxHeight=1, Variants=True),
@@ -105,18 +110,18 @@ QUICK = {"C01": ["SQ1", "SQ3", "A", "E", "E3b"], "C02": ["E", "E3q", "A", "S"], 
          "C07": ["R", "RX", "E", "A"], "C08": ["RX", "RA", "R"], "C16": ["SQ1", "SQ2", "SQ3", "R"]}
 # every property's quick tier also sees every small exhaustive world (a change often shows only in a world built for
 # another property: mirrored coordinates, a bystander account, two leases of one provider)
-SMALL = ["SQ3", "SQ5", "SQ6", "SB", "RX", "RA", "E3b"]
+SMALL = ["SQ3", "SQ5", "SQ6", "SB", "UP", "RX", "RA", "E3b"]
 # the escrow-keeper worlds have escrow accounts with no deployment behind them: only the properties that speak about the
 # escrow module alone are judged there
 ESCROW_ONLY_OK = {"C01", "C02", "C03", "C06", "C07"}
 for _p in QUICK:
     QUICK[_p] = QUICK[_p] + [f for f in SMALL if f not in QUICK[_p] and (f not in ESCROW_FAMILIES or _p in ESCROW_ONLY_OK)]
 # C07 executes every step five times (three repetitions, a second instance, a restarted instance): fewer worlds
-QUICK["C07"] = ["R", "RX", "A", "SQ3", "SQ6", "SB", "RA", "E3b"]
+QUICK["C07"] = ["R", "RX", "A", "SQ3", "SQ6", "SB", "UP", "RA", "E3b"]
 THOROUGH = {"C01": ["SX", "E", "EL", "S", "A", "B"], "C02": ["SX", "E", "E3q", "EL", "A", "S"], "C03": ["SX", "E", "EL", "S", "A"],
             "C04": ["SX", "SQ3", "SQ5", "S", "A", "B"], "C05": ["SX", "SQ3", "SQ5", "S", "A", "B"], "C06": ["SX", "RX", "E", "B", "R", "S"],
             "C07": ["SX", "RX", "R", "S", "A"], "C08": ["RX", "RA", "SX", "R"], "C16": ["SX", "RX", "SQ3", "S", "A", "R", "B"]}
-EXHAUSTIVE = {"SX", "SQ1", "SQ2", "SQ3", "SQ5", "SQ6", "SB", "RX", "RA", "E", "E3", "E3q", "E3b"}
+EXHAUSTIVE = {"SX", "SQ1", "SQ2", "SQ3", "SQ5", "SQ6", "SB", "RX", "RA", "E", "E3", "E3q", "E3b", "UP"}
 PAR = max(2, min(8, vlib.NCPU // 2))     # concurrent harness processes / J3 JVMs per family
 FAMILY_PAR = 2                           # families in flight at a time
 ROUNDTRIPS = 3        # per harness shard: states at which the genesis export/import round trip is recorded
@@ -229,7 +234,7 @@ def run_harness(vh, fam, work, nodes, alpha, expand, seed, shards, reps):
     c = FAMILIES[fam]
     wcfg = dict(tenants=c["Tenants"], providers=c["Providers"], auditors=c["Auditors"], initCoins=c["InitCoins"],
                 minDeposit=c["MinDeposit"], bidMinDeposit=c["BidMinDeposit"], orderMaxBids=c.get("OrderMaxBids", 20),
-                foreignCoins=3 if c.get("Variants") else 0)
+                foreignCoins=3 if c.get("Variants") else 0, upperParties=c.get("UpperParties", []))
     json.dump(wcfg, open(os.path.join(work, "world.json"), "w"))
     # every shard gets its own slice of the exported states (a path carries its ancestors), so no process holds them all
     for i in range(shards):
@@ -467,6 +472,14 @@ def run(pid, tier, seed, replay):
                                "alphabet": out["alphabet"], "impl_steps": out["nsteps"], "j1_wall_s": round(r1.wall_s, 1)})
     if pid == "C16":
         codec_stage(vh, cov, violations)
+    if pid in ("C06", "C07"):
+        # certificate transactions (x/cert) belong to "every marketplace transaction" of these two statements; the cert
+        # family's specification and harness decide their part: signer and frame for C06, repeated execution (also across
+        # a certificate's validity boundary and in a second instance) for C07
+        import cert
+        cv, ccov = cert.extra_stage(pid, vh, tier, seed)
+        violations += cv
+        cov.update(ccov)
     cov["drift_steps"] = len(drifts)
     for dmsg in drifts[:20]:
         vlib.log("DRIFT " + dmsg)
